@@ -893,6 +893,30 @@ class Permissive:
             return None     # inline the real body
         if re.match(r"^(key_pair::)?KeyPair::public_key_der$", c):
             return one(Opaque("public_key_der", deref(args[0])))
+        if re.match(r"^<SerialNumber as AsRef<\[u8\]>>::as_ref$", c):
+            return one(Opaque("bytes-of", deref(args[0])))
+        # automatic serial number: digest -> first 20 bytes -> clear the top bit -> INTEGER
+        if re.match(r"^<.* as PublicKeyData>::der_bytes$", c):
+            return one(Opaque("der_bytes", deref(args[0])))
+        if re.match(r"^(ring::)?digest::digest$", c):
+            alg = deref(args[0])
+            st.events.append(("digest", alg.data if isinstance(alg, Opaque) else str(alg), describe(args[1])))
+            return one(Opaque("digest-output", z3.Const("digest_out", z3.ArraySort(z3.IntSort(), z3.BitVecSort(8)))))
+        if re.match(r"^<(ring::digest::)?Digest as AsRef<\[u8\]>>::as_ref$", c):
+            return one(Opaque("digest-bytes", deref(args[0]).data))
+        if re.match(r"^<\[u8\] as Index<std::ops::Range<usize>>>::index$", c) and isinstance(deref(args[0]), Opaque) and deref(args[0]).what == "digest-bytes":
+            rng = args[1]
+            return one(Opaque("digest-slice", (deref(args[0]).data, rng.fields[0].v.e, rng.fields[1].v.e)))
+        if re.match(r"^std::slice::<impl \[u8\]>::to_vec$", c) and isinstance(deref(args[0]), Opaque) and deref(args[0]).what == "digest-slice":
+            arr, lo, hi = deref(args[0]).data
+            i = z3.Int("i!shift")
+            shifted = arr if z3.is_true(z3.simplify(lo == 0)) else z3.Lambda([i], z3.Select(arr, i + lo))
+            return one(E.VecV(shifted, hi - lo))
+        if re.match(r"^<Vec<u8> as IndexMut<usize>>::index_mut$", c) and isinstance(args[0], Ref) and isinstance(args[0].cell.v, E.VecV):
+            return one(Ref(E.ElemCell(args[0].cell, args[1].e)))
+        if re.match(r"^(yasna::)?DERWriter::<'_>::write_bigint_bytes$", c):
+            st.events.append(("bigint", deref(args[1]), args[2]))
+            return one(UNIT)
         if re.match(r"^KeyIdMethod::derive::<", c):
             return one(Opaque("derived-key-id", (deref(args[0]), args[1])))
         if re.match(r"^<Vec<u8> as Clone>::clone$", c):
@@ -1065,3 +1089,82 @@ def ob_ext_presence(fns):
 
 
 TBS = [ob_ext_presence]
+
+
+def ob_auto_serial(fns):
+    ob = Obligation("auto_serial", "automatic serial number: the INTEGER is written from exactly the first 20 bytes of SHA-256(the subject public key bytes) with the "
+                                   "top bit of the first byte cleared, as a non-negative number - hence positive and (with yasna's INTEGER writer, unit bigint_unit) at "
+                                   "most 20 octets; an explicit serial is passed through unchanged",
+                    ["CertificateParams::serialize_der_with_signer::{closure#0} (serial number block)"])
+    f = find(fns, r"serialize_der_with_signer::\{closure#0\}$")
+    eng, models = setup(fns)
+    models.call = Permissive(models)
+    models.u8_as_bitvec = True
+    B = z3.Bool
+    serial_some = B("serial_some")
+
+    def vecflag(n):
+        return Opaque("vecflag", n)
+
+    params = Agg("CertificateParams", [
+        Cell(Opaque("not_before")), Cell(Opaque("not_after")), Cell(Opt(serial_some, Opaque("serial", "explicit-serial"))), Cell(vecflag("san")),
+        Cell(Opaque("subject_dn")), Cell(E.EnumV("IsCa", z3.IntVal(0), [("NoCa", []), ("ExplicitNoCa", []), ("Ca", [Opaque("bc")])])), Cell(vecflag("ku")),
+        Cell(vecflag("eku")), Cell(Opt(z3.BoolVal(False), None)), Cell(vecflag("crldp")), Cell(E.ListV([])), Cell(Z(z3.BoolVal(False))),
+        Cell(E.EnumV("KeyIdMethod", z3.IntVal(3), [("Sha256", []), ("Sha384", []), ("Sha512", []), ("PreSpecified", [Opaque("vec", "own-prespecified")])]))])
+    env = []
+    iss_kid_cell = Cell(E.EnumV("KeyIdMethod", z3.IntVal(3), [("Sha256", []), ("Sha384", []), ("Sha512", []), ("PreSpecified", [Opaque("vec", "issuer-prespecified")])]))
+    issuer_key = Cell(Agg("KeyPair", [Cell(Opaque("kind")), Cell(Opaque("alg", "issuer-alg")), Cell(Opaque("secret"))]))
+    for idx in sorted(f.upvars):
+        name = f.upvars[idx][0]
+        env.append(Cell({"self": Ref(Cell(params)), "pub_key": Ref(Cell(Opaque("subject_pubkey", "SUBJECT-KEY"))),
+                         "issuer__distinguished_name": Ref(Cell(Ref(Cell(Opaque("issuer_dn"))))), "issuer__key_identifier_method": Ref(iss_kid_cell),
+                         "issuer__key_pair": Ref(issuer_key)}.get(name) or _unsupported(f"capture {name}")))
+    st = State()
+    st.pc += [B("san_empty"), B("ku_empty"), B("eku_empty"), B("crldp_empty")]
+    D = z3.Const("digest_out", z3.ArraySort(z3.IntSort(), z3.BitVecSort(8)))
+    seen = set()
+    for (s2, ret) in eng.call_closure(E.Closure(f, Agg("closure", env)), [Ref(Cell(Opaque("writer")))], st):
+        sol = z3.Solver()
+        sol.add(*s2.pc)
+        if sol.check() != z3.sat:
+            continue
+        ob.paths += 1
+        ob.reach = True
+        ints = [e for e in s2.events if e[0] == "bigint"]
+        digs = [e for e in s2.events if e[0] == "digest"]
+        auto = sol.model().eval(serial_some, model_completion=True)
+        if z3.is_true(auto):
+            seen.add("explicit")
+            ok = len(ints) == 1 and "explicit-serial" in describe(ints[0][1]) and not digs
+            if not ok:
+                ob.result, ob.cex = "fail", {"op": "auto-serial", "note": "an explicitly given serial number is not written as given"}
+                return ob
+            continue
+        seen.add("automatic")
+        if len(ints) != 1 or len(digs) != 1:
+            ob.result, ob.cex = "fail", {"op": "auto-serial", "note": f"{len(ints)} INTEGER write(s), {len(digs)} digest call(s) for the automatic serial"}
+            return ob
+        if "SHA256" not in str(digs[0][1]) or "SUBJECT-KEY" not in digs[0][2] or not digs[0][2].startswith("der_bytes("):
+            ob.result, ob.cex = "fail", {"op": "auto-serial", "note": f"digest is not SHA-256 over the subject public key bytes: {digs[0][1:]}"}
+            return ob
+        v, positive = ints[0][1], ints[0][2]
+        if not isinstance(v, E.VecV):
+            raise Unsupported("automatic serial bytes are not a tracked vector: " + describe(v)[:80])
+        goal = z3.And(v.length == 20, z3.Extract(7, 7, z3.Select(v.arr, 0)) == 0, z3.Select(v.arr, 0) == (z3.Select(D, 0) & 0x7f),
+                      *[z3.Select(v.arr, i) == z3.Select(D, i) for i in range(1, 20)], positive.e if isinstance(positive, Z) else z3.BoolVal(False))
+        r = check_valid(ob, s2.pc, goal, "auto-serial/bytes")
+        if r is not None and r != "infeasible":
+            ob.result, ob.cex = "fail", {"op": "auto-serial", "note": "the automatic serial is not digest[0..20] with the top bit cleared, written as a non-negative INTEGER"}
+            return ob
+    if seen != {"explicit", "automatic"}:
+        ob.result, ob.reason = "inconclusive", f"paths reached: {sorted(seen)}"
+        return ob
+    ob.result = "pass"
+    return ob
+
+
+def _unsupported(msg):
+    raise Unsupported(msg)
+
+
+TBS = [ob_ext_presence, ob_auto_serial]
